@@ -853,12 +853,19 @@ fn generate_function_inner(
 
     let name = Located::none(context.get_function_name(id)?.to_string());
 
+    // Default arguments can not be followed by the parameters we append for global variables
+    let has_implicit_parameters = !context
+        .function_required_globals
+        .get(&id)
+        .unwrap()
+        .is_empty();
+
     let mut params = Vec::new();
     for param in &decl.params {
         params.push(generate_function_param(
             param,
             false,
-            trampoline_target,
+            trampoline_target || has_implicit_parameters,
             context,
         )?);
     }
@@ -2554,6 +2561,24 @@ fn generate_user_call(
 
     let type_args = generate_template_type_args(tys, context)?;
     let mut args = generate_invocation_args(arguments, context)?;
+
+    // Arguments left to their defaults have to be written out when more arguments follow them
+    let has_implicit_parameters = !context
+        .function_required_globals
+        .get(&id)
+        .unwrap()
+        .is_empty();
+    if has_implicit_parameters {
+        let module = context.module;
+        if let Some(implementation) = module.function_registry.get_function_implementation(id) {
+            for param in implementation.params.iter().skip(arguments.len()) {
+                if let Some(default_expr) = &param.default_expr {
+                    let default_expr = generate_expression(default_expr, context)?;
+                    args.push(Located::none(default_expr));
+                }
+            }
+        }
+    }
 
     // Add arguments for passing global variable references into subfunctions
     append_arguments_for_globals(&mut args, id, context);
